@@ -99,3 +99,45 @@ claim("C04",
       "For all inputs: no allocation in the repository is sized by a wire value without a narrow type or a dominating bound (allocations that grow with arrived data are the accepted idioms); the negotiated segment size reaches the sender's buffer only through a checked chain and is bounded to [1, cap] at its origin; no explicit panic of the repository or cboring is reachable from any decoder entry point; every decoder loop is bounded by in-memory data or consumes input; every single-value type assertion reachable from a decoder is a registry idiom or dominated by a comma-ok test of the same value.",
       "Not decided: panics inside third-party libraries (xz, gorilla, badger, reflect), nil dereference and index panics in general, slow-but-finite inputs, allocation behaviour inside cboring (one table entry).",
       "DESIGN.md §3 C04")
+
+# ---- additions of the audit round (appended to the texts above) ----
+def extend(pid, technique="", text="", note=""):
+    c = CLAIMED[pid]
+    if technique:
+        c["technique"] += "; " + technique
+    if text:
+        c["text"] += " " + text
+    if note:
+        c["note"] += " " + note
+
+extend("C02", "syntax-tree analysis (regexp/syntax) of the constant endpoint patterns",
+       "What an endpoint pattern captures consists of visible ASCII characters only and a numeric group accepts no leading zero (decided on the pattern's syntax tree).")
+extend("C03", "helper obligations for checkCRCField (header as received, snapshot-before-read, table/width per type, accept only on equality)",
+       "The array header and the CRC field's header enter the checksum as received: the tee is installed before the array header is read and nothing is replayed or re-encoded.")
+extend("C04", "nil-test rule for interface values handed to encoding/binary, service-goroutine send rule for the BBC reader",
+       "A caller-supplied interface{} reaches binary.Write only behind a non-nil test; the BBC reader never blocks on a channel that is read on demand only.")
+extend("C05", "whole-bundle-only release on delivered reports, fragment-aware filing (known finding)",
+       "A 'delivered' report releases a stored bundle only if it refers to the whole bundle.",
+       "Known finding (not repaired): a second fragment arriving at a relay that holds another fragment of the bundle is dropped (scrubbed-ID identity in the routing layer).")
+extend("C07", "agent-drains rules (no upward blocking send in a receiver loop, deferred drain after an abnormal exit)",
+       "Every agent keeps reading its receiver channel until it is closed or a shutdown arrives and never blocks on its own sender channel inside that loop - the premise under which the MuxAgent may hold its lock across the hand-over.")
+extend("C08", "index-then-files order of Delete, acknowledged-without-storing returns of Push, Load/IsComplete agreement",
+       "Delete removes the record before the files (a stop in between leaves orphans, never an unloadable record); Push acknowledges without writing only if the record is the whole bundle or contains the fragment; Load reassembles only fragmented records.",
+       "(the earlier sentence 'is removed before it' is superseded: the record goes first.)")
+extend("C09", "fits-as-itself early return, numbering-preserved copies",
+       "A bundle whose serialisation fits is returned as itself before any fragment is built; copied blocks keep their numbers and order (no AddExtensionBlock in Fragment/ReassembleFragments).")
+extend("C11", "nil-reset field rule (contradiction rule)",
+       "A pointer field that the session clean-up resets to nil is used by other methods only behind a non-nil test of a snapshot: Send on a finished session returns an error.")
+extend("C12", "service-goroutine send rule, timeout existence (known finding)",
+       "", "Known finding (not repaired): the loss of the last fragment of a BBC transmission is never signalled (no receive timeout).")
+extend("C13", "per-bundle dispatch reservation (who-may-call + guarded steps + deferred release), previous node on every initialising branch",
+       "forward/localDelivery are entered only through dispatching, which reserves the bundle's ID in a concurrent set before consulting the algorithm (two goroutines cannot select for one bundle at once); every branch of the spray NotifyNewBundle implementations records the previous node.")
+extend("C14", "last-use forgetting rule for the keeper, persisted-state existence (known finding)",
+       "The keeper forgets a counter only by the time of its last use recorded by update().",
+       "Known finding (not repaired): sequence numbers of clock-less bundles restart at 0 after a restart once the earlier bundle left the store (no persisted counter).")
+extend("C16", "stoppable-goroutine rule (every send of a close-signalled goroutine is a select case together with its stop channel) for the manager, its elements and the MTCP/TCPCLv4 clients; registration serialisation; active-test under the element mutex",
+       "Close/deactivate cannot wait for ever on a goroutine that is blocked sending a status nobody reads; registrations of one address are serialised and an active element is neither started twice nor given up by a racing retry.")
+extend("C17", "decoder-validates rule for endpoint IDs, dtn:none-is-zero, regexp language rules shared with C02, text-number-width",
+       "EndpointID.UnmarshalCbor succeeds only with CheckValid's verdict (what is accepted can be encoded again); only the integer 0 decodes as dtn:none; URI numbers have one text form.")
+extend("C20", "link-event must-pass rules with the other-session exemption, no-escape of DTLSR state",
+       "Every peer appearance/disappearance reaches the link state, the change flag and the record stamp; a disappearance is ignored only while another active sender leads to the same peer; the live peers map never leaves the lock region (the broadcast block gets a copy).")
